@@ -503,6 +503,53 @@ let world_line l =
     String.concat " | " (List.rev !out) ^ " log=" ^ hex_of_bytes !log_now
   with Parse m -> "parse-error " ^ m | Failure m -> "parse-error " ^ m
 
+(* the 'world' line with `LOC n hex...` after every phase's events: the messages `-d explain` logs at every verdict,
+   "ok b:hexmsg,hexmsg b: ..." in order (Model/Explain.v) *)
+let explain_line l =
+  try
+    let ts = toks_of_line l in
+    expect ts "FS";
+    let nf = next_int ts in
+    let fs = times nf (fun () -> let n = bytes_of_hex (next ts) in let m = next_int ts in (n, mt_of_int m)) in
+    expect ts "DB";
+    let dbt = next ts in
+    let db = if dbt = "none" then [] else bytes_of_hex dbt in
+    let state : wstate option ref = ref None in
+    let fs_now = ref fs in
+    let log_now = ref db in
+    let out = ref [] in
+    let stop = ref false in
+    while peek_tok ts = "PHASE" && not !stop do
+      expect ts "PHASE";
+      let reload = next_int ts = 1 in
+      let g = parse_wgraph ts in
+      expect ts "EV";
+      let ne = next_int ts in
+      let evs = times ne (fun () -> parse_wevent ts) in
+      expect ts "LOC";
+      let nl = next_int ts in
+      let locs = times nl (fun () -> bytes_of_hex (next ts)) in
+      let st0 = (match (!state, reload) with
+        | (Some s, false) -> Ok s
+        | _ -> load_state g !fs_now !log_now) in
+      (match st0 with
+       | Ok s ->
+         List.iter (fun (b, msgs) ->
+           out := (Printf.sprintf "%d:%s" (int_of_nat b) (String.concat "," (List.map hex_of_bytes msgs))) :: !out)
+           (explain_trace g locs s None evs);
+         (match replay g s None evs O with
+          | WOk s' -> state := Some s'; fs_now := s'.ws_fs; log_now := s'.ws_log
+          | _ -> stop := true)
+       | _ -> stop := true)
+    done;
+    String.concat " " ("ok" :: List.rev !out)
+  with Parse m -> "parse-error " ^ m | Failure m -> "parse-error " ^ m
+
+(* "<n>" | "fail" -> terminal::get_cols and the width print_progress uses *)
+let cols_line l =
+  let io = if String.trim l = "fail" then None else Some (n_of_int (int_of_string (String.trim l))) in
+  (match get_cols io with None -> "none" | Some c -> Printf.sprintf "some %d" (int_of_n c)) ^ Printf.sprintf " use %d" (int_of_n (max_cols io))
+
 let hash_line l =
   (* hex of the manifest stream -> siphash *)
   "ok " ^ hexnum_of_n (siphash13 (bytes_of_hex l))
@@ -529,10 +576,10 @@ let suites : (string * (string -> string)) list =
     ("showincludes", showinc_line true); ("showincludes_pinned", showinc_line false);
     ("lastline", lastline_line); ("depfiledeps", depfiledeps_line);
     ("taskmsg", taskmsg_line true); ("taskmsg_pinned", taskmsg_line false);
-    ("truncate", truncate_line); ("bar", bar_line); ("fancy", fancy_line); ("lossy", lossy_line); ("task", task_line); ("dumb", dumb_line); ("cli", cli_line); ("fs", fs_line); ("status", status_line);
+    ("truncate", truncate_line); ("bar", bar_line); ("fancy", fancy_line); ("lossy", lossy_line); ("task", task_line); ("dumb", dumb_line); ("cli", cli_line); ("fs", fs_line); ("cols", cols_line); ("status", status_line);
     ("inv", inv_line); ("select", select_line); ("build", build_line);
     ("dbopen", dbopen_line); ("dbwrite", dbwrite_line);
-    ("load", load_line); ("world", world_line); ("siphash", hash_line); ("dedup", dedup_line true); ("dedup_pinned", dedup_line false) ]
+    ("load", load_line); ("world", world_line); ("explain", explain_line); ("siphash", hash_line); ("dedup", dedup_line true); ("dedup_pinned", dedup_line false) ]
 
 let () =
   let suite = if Array.length Sys.argv > 1 then Sys.argv.(1) else "" in
